@@ -13,6 +13,12 @@
      int(s)                the oracle int_of (ValueError = None), as in the hand model
      len, +, -, comparisons of ints, str + str, s.endswith(t) / s.startswith(t), not, is None / is not None, f-strings of str
      self._links.get(k[, d])  lookup in the `links` map of the hand model (a value is the pair (base_url, location))
+     k in self._links / self._links[k]   the same lookup; indexing with a missing key (KeyError) has no meaning here (stuck)
+     a, *m, z = l           starred unpacking of a list of str: the leading / trailing names get the first / last items,
+                            the starred name the list in between; too few items is ValueError, as in Python
+     x = f(a, ...)          a call of a function defined at module level in the same file: its translated body is run on
+                            fresh locals holding the arguments; what it returns is assigned (or unpacked), what it raises
+                            is raised at the call
      for x in range(a, b): B else: E   is desugared by the translator into the infinite loop SLoop with a hidden counter *)
 From Coq Require Import ZArith NArith List Bool.
 From PydoctorVerif Require Import Base.Sexp Model.Inventory.
@@ -39,13 +45,24 @@ Inductive expr :=
 | ENot (e : expr) | EIsNone (e : expr) | EIsNotNone (e : expr)
 | EEndsWith (e suffix : expr) | EStartsWith (e prefix : expr)
 | ELinksGet (key default : expr)              (* self._links.get(key, default) *)
+| ELinksHas (key : expr)                      (* key in self._links *)
+| ELinksIndex (key : expr)                    (* self._links[key] *)
 | EFormat (parts : list expr).                (* f'...': the concatenation of str pieces *)
+
+(* what an assignment binds: x = ... / a, b = ... / a, *m, z = ... *)
+Inductive target :=
+| TVar (x : var)
+| TTuple (xs : list var)
+| TStar (before : list var) (star : var) (after : list var).
 
 Inductive stmt :=
 | SSkip
 | SSeq (a b : stmt)
 | SAssign (x : var) (e : expr)
 | SUnpack (xs : list var) (e : expr)          (* a, b = e *)
+| SUnpackStar (before : list var) (star : var) (after : list var) (e : expr)     (* a, *m, z = e *)
+| SCall (t : target) (nlocals : nat) (params : list var) (args : list expr) (body : stmt)
+                                              (* t = f(args) with f's translated body, locals and parameter slots *)
 | SIf (c : expr) (th el : stmt)
 | SLoop (body : stmt)                         (* while True: body *)
 | SBreak | SContinue
@@ -205,6 +222,19 @@ Section Eval.
         | EV (VStr t) => match eval s e with EV (VStr u) => EV (VBool (starts_with u t)) | EV _ => EStuck | o => o end
         | EV _ => EStuck | o => o
         end
+    | ELinksHas k =>
+        match eval k e with
+        | EV (VStr n) => EV (VBool (match lookup n links with Some _ => true | None => false end))
+        | EV _ => EStuck | o => o
+        end
+    | ELinksIndex k =>
+        match eval k e with
+        | EV (VStr n) => match lookup n links with
+                         | Some (b, l) => EV (VTuple [VStr b; VStr l])
+                         | None => EStuck
+                         end
+        | EV _ => EStuck | o => o
+        end
     | ELinksGet k d =>
         match eval k e with
         | EV (VStr n) => match eval d e with
@@ -239,6 +269,65 @@ Section Eval.
     | _, _ => None
     end.
 
+  (* binding a value to a target *)
+  Inductive ares := AOk (e : env) | AExn (x : exn) | AStuck.
+
+  Fixpoint set_strs (xs : list var) (l : list text) (i : nat) (e : env) : option env :=
+    match xs with
+    | [] => Some e
+    | x :: xs' => match nth_error l i with
+                  | Some t => set_strs xs' l (S i) (setv x (VStr t) e)
+                  | None => None
+                  end
+    end.
+
+  Definition assign_star (before : list var) (star : var) (after : list var) (l : list text) (e : env) : ares :=
+    let n := length l in
+    let tot := (length before + length after)%nat in
+    if Nat.ltb n tot then AExn ValueError
+    else
+      match set_strs before l 0 e with
+      | None => AStuck
+      | Some e1 =>
+        let e2 := setv star (VList (firstn (n - tot) (skipn (length before) l))) e1 in
+        match set_strs after l (n - length after) e2 with
+        | None => AStuck
+        | Some e3 => AOk e3
+        end
+      end.
+
+  Definition assign (t : target) (v : value) (e : env) : ares :=
+    match t with
+    | TVar x => AOk (setv x v e)
+    | TTuple xs =>
+        match v with
+        | VTuple vs => match set_all xs vs e with Some e1 => AOk e1 | None => AStuck end
+        | _ => AStuck
+        end
+    | TStar b s a =>
+        match v with
+        | VList l => assign_star b s a l e
+        | _ => AStuck
+        end
+    end.
+
+  Fixpoint eval_args (es : list expr) (e : env) (acc : list value) : option (list value) + exn :=
+    match es with
+    | [] => inl (Some (rev acc))
+    | x :: r => match eval x e with
+                | EV v => eval_args r e (v :: acc)
+                | EX x' => inr x'
+                | EStuck => inl None
+                end
+    end.
+
+  Fixpoint bind_params (ps : list var) (vs : list value) (e : env) : option env :=
+    match ps, vs with
+    | [], [] => Some e
+    | p :: ps', v :: vs' => bind_params ps' vs' (setv p v e)
+    | _, _ => None
+    end.
+
   (* one `while True:` : the body gets the continuation that decides between next iteration and exit *)
   Fixpoint iter (fuel : nat) (body : env -> (outcome -> outcome) -> outcome) (e : env) (K : outcome -> outcome)
     : outcome :=
@@ -265,6 +354,38 @@ Section Eval.
         | EV _ => OStuck
         | EX x' => K (ORaise x' e)
         | EStuck => OStuck
+        end
+    | SUnpackStar b st a ex =>
+        match eval ex e with
+        | EV (VList l) =>
+            match assign_star b st a l e with
+            | AOk e1 => K (ONormal e1) | AExn x' => K (ORaise x' e) | AStuck => OStuck
+            end
+        | EV _ => OStuck
+        | EX x' => K (ORaise x' e)
+        | EStuck => OStuck
+        end
+    | SCall t nlocals params args body =>
+        match eval_args args e [] with
+        | inr x' => K (ORaise x' e)
+        | inl None => OStuck
+        | inl (Some vs) =>
+            match bind_params params vs (repeat VUnbound nlocals) with
+            | None => OStuck
+            | Some ec =>
+                exec fuel body ec
+                     (fun o =>
+                        let ret v := match assign t v e with
+                                     | AOk e1 => K (ONormal e1) | AExn x' => K (ORaise x' e) | AStuck => OStuck
+                                     end in
+                        match o with
+                        | OReturn v => ret v
+                        | ONormal _ => ret VNone
+                        | ORaise x' _ => K (ORaise x' e)
+                        | OFuel => OFuel
+                        | _ => OStuck
+                        end)
+            end
         end
     | SIf c th el =>
         match eval c e with
